@@ -233,8 +233,8 @@ def _replay_fixed_point(L):
 def k3b(ctx, kr):
     global _CTX
     _CTX = ctx
-    jobs = [(1, 3), (2, 4), (3, 2)] + ([(2, 6), (4, 5)] if ctx.tier == 'thorough' else [])
-    kr.bounds = 'texts W.F with |W| in 1..3, |F| in 2..4 characters, each a symbolic digit or underscore (first character a digit)'
+    jobs = [(1, 3), (2, 4), (3, 2)] + ([(2, 5), (4, 3)] if ctx.tier == 'thorough' else [])      # (2,6) and (4,5) end in solver timeouts (64-bit multiply chains)
+    kr.bounds = 'texts W.F with (|W|,|F|) in %s characters, each a symbolic digit or underscore (first character a digit)' % jobs
     for part in par_map(_k3b_job, jobs): merge_part(kr, part)
     P = ctx.program()
     kr.functions = fn_paths(P, getattr(kr, '_enc', set()))
